@@ -104,6 +104,8 @@ CASES = [
     ("nonzero_tuple", "def f(a, b):\n    m = a[:, 0] > 0\n    i = m.nonzero(as_tuple=True)[0]\n    j = torch.where(~m)[0]\n    c = b.clone()\n    c[i] = c[i] * 2\n    c[j] = 0\n    return c", (5, 2), (5, 2)),
     ("vstack_hstack", "def f(a, b):\n    return torch.hstack((torch.vstack((a, b)), torch.vstack((b, a))))", (3, 2), (2, 2)),
     ("method_forms", "def f(a, b):\n    return a.flip(dims=(1,)) + a.flip([0]).square() + a.sign().relu() + a.ceil().clamp(min=-1.0, max=2.0)", (3, 2), (1,)),
+    ("amin_mT_flipint", "def f(a, b):\n    return a.amin(dim=0) + a.amax(dim=0) + torch.amin(a, dim=0) + (a.mT @ a).amax() + a.flip(1).amin() + a.flip(0, 1)[0]", (3, 2), (1,)),
+    ("reshape_infer", "def f(a, b):\n    return a.reshape(len(a), -1, 2) + a.reshape(-1, 2)[0]", (3, 2, 4), (1,)),
     ("flip", "def f(a, b):\n    return torch.flip(a, [0])", (4, 2), (1,)),
     ("sign_relu", "def f(a, b):\n    return torch.sign(a) + torch.relu(a)", (6,), (1,)),
     ("ceil_int", "def f(a, b):\n    n = int(torch.ceil(a[0] / 3))\n    return torch.ones(n + 1)", (1,), (1,)),
